@@ -281,7 +281,7 @@ def tsa_statement_text(kind, t):
   return inspect.getsource(fn).splitlines()[1] + "\n"
 
 
-def tsa(kinds=("aug", "assign")):
+def tsa(kinds=("aug", "assign"), same_names=False):
   """threads executing one statement each on the same thread-safe attribute of the same instance (C27);
   kinds[t] in {'read', 'assign', 'aug'}: the descriptor calls CPython makes for `v = o.x`, `o.x = c`, `o.x += c`"""
   import ast as _ast
@@ -322,8 +322,14 @@ def tsa(kinds=("aug", "assign")):
     "getframeinfo": SI(lambda comp, a, k: ST([])),
   }, "inspect")
   sc.class_intrinsics.append((tsmod.FrameData, lambda comp, a, k: SNs({"lines": ST([SK(sc.strings.code(frame_line(comp)), frame_line(comp))])}, "FrameData")))
+  # threads are told apart by their ident; their names are distinct unless the scenario gives every thread the same name (legal: miros
+  # names an active object's thread after the chart)
+  def current_thread(comp, a, k):
+    nm = "worker" if same_names else "worker-%d" % comp.tid
+    return SNs({"name": SK(sc.strings.code(nm), nm), "ident": SK(comp.tid + 1, comp.tid + 1)}, "thread")
   sc.modules["threading"] = SNs({"get_ident": SI(lambda comp, a, k: SK(comp.tid + 1, comp.tid + 1)),
-                                 "current_thread": SI(lambda comp, a, k: SK(comp.tid + 1, comp.tid + 1))}, "threading")
+                                 "current_thread": SI(current_thread)}, "threading")
+  sc.by_identity.append((threading.current_thread, SI(current_thread)))
   sc.modules["re"] = SNs({}, "re")
   sc.by_identity.append((threading.get_ident, SI(lambda comp, a, k: SK(comp.tid + 1, comp.tid + 1))))
 
@@ -364,7 +370,7 @@ def tsa(kinds=("aug", "assign")):
       args.append(SK(TSA_CONST[t], TSA_CONST[t]))
     c.call_function(SF(node=driver(src, "t_" + kind), closure={"record": SI(record)}, qualname="scenario.t_" + kind, globs={}), args, {})
     sc.programs.append(c.finish())
-  sc.info = {"kinds": list(kinds), "lock_attrs": [k for k, v in attrs.items() if isinstance(v, M.MRLock)],
+  sc.info = {"kinds": list(kinds), "same_names": bool(same_names), "lock_attrs": [k for k, v in attrs.items() if isinstance(v, M.MRLock)],
              "shared_attrs": sorted(written), "texts": texts, "lock_names": ["desc." + k for k, v in attrs.items() if isinstance(v, M.MRLock)]}
   return sc
 
